@@ -581,6 +581,27 @@ func checkAugCase(res *Result, ac *augCase, dir string, idx int, seed int64, rea
 			immutAug(res, dump3, idx, cs)
 		}
 		if cutOnly {
+			// a source in which cutting the digits of the line number lands in other functions: the frame's
+			// function is declared on line 120, a function of another shape spans lines 10-19
+			var sb strings.Builder
+			sb.WriteString("package main\n\nimport \"errors\"\n\nvar _ = errors.New\n\ntype T struct{ x, y, z int }\n\n\n")
+			sb.WriteString("func decoy(a int, b string, c T, d T, e T) int {\n" + strings.Repeat("\n", 8) + "\treturn a\n}\n")
+			for strings.Count(sb.String(), "\n") < 119 {
+				sb.WriteString("\n")
+			}
+			var sig []string
+			for i, p := range ps {
+				sig = append(sig, fmt.Sprintf("p%d %s", i, p.typ))
+			}
+			recvTxt := ""
+			if recv {
+				recvTxt = "(t *T) "
+			}
+			fmt.Fprintf(&sb, "func %scallee(%s) {\n\n\tpanic(\"boom\")\n}\n", recvTxt, strings.Join(sig, ", "))
+			_ = os.WriteFile(filepath.Join(dir, "main.go"), []byte(sb.String()), 0o644)
+			dump5 := fmt.Sprintf("goroutine 1 [running]:\n%s(%s)\n\t%s:122 +0x1d\n\ngoroutine 2 [running]:\n%s(%s)\n\t%s:122 +0x1d\n", fn, words, file, fn, printWords(ps2, recv), file)
+			cutAug(res, dump5, idx, cs)
+			genSource(dir, ps, recv, 0)
 			// every frame of the uncut dump is found on disk
 			dump4 := fmt.Sprintf("goroutine 1 [running]:\n%s(%s)\n\t%s:%d +0x1d\n\ngoroutine 2 [running]:\n%s(%s)\n\t%s:%d +0x1d\nmain.main()\n\t%s:%d +0x2a\n", fn, words, file, pl, fn, printWords(ps2, recv), file, pl, file, pl+5)
 			cutAug(res, dump4, idx, cs)
@@ -639,6 +660,23 @@ func checkAugCase(res *Result, ac *augCase, dir string, idx int, seed int64, rea
 					res.violation(Finding{Property: "C19", Aspect: "mismatch", What: fmt.Sprintf("mismatching sources (variant %d) changed a frame or its raw values", m), Case: cs})
 				}
 			}
+		}
+	}
+	// line numbers that no file has - beyond the last line, 19 and 20 digits, beyond 2^63: the frame
+	// keeps its raw values, nothing crashes
+	genSource(dir, ps, recv, 0)
+	for _, ln := range []string{"99999", "9223372036854775807", "9223372036854775808", "9999999999999999999", "18446744073709551615", "18446744073709551616"} {
+		dh := fmt.Sprintf("goroutine 1 [running]:\n%s(%s)\n\t%s:%s +0x1d\n", fn, words, file, ln)
+		s, pan := scanWith(dh, &stack.Opts{LocalGOROOT: runtime.GOROOT(), GuessPaths: true, AnalyzeSources: true})
+		if pan != "" {
+			res.violation(Finding{Property: "C19", Aspect: "mismatch-panic", What: fmt.Sprintf("a frame with line number %s (no such line in the source found on disk) makes source analysis panic: %s", ln, pan), Case: cs, Input: []byte(dh)})
+			res.violation(Finding{Property: "C03", Aspect: "panic", What: "source analysis panicked on a line number beyond the file: " + pan, Case: cs, Input: []byte(dh)})
+			continue
+		}
+		b, _ := scanWith(dh, &stack.Opts{LocalGOROOT: runtime.GOROOT(), GuessPaths: true})
+		if (s == nil) != (b == nil) || (s != nil && len(s.Goroutines) == 1 && len(b.Goroutines) == 1 && len(s.Goroutines[0].Stack.Calls) > 0 && len(b.Goroutines[0].Stack.Calls) > 0 &&
+			!reflect.DeepEqual(s.Goroutines[0].Stack.Calls[0].Args.Values, b.Goroutines[0].Stack.Calls[0].Args.Values)) {
+			res.violation(Finding{Property: "C19", Aspect: "mismatch", What: fmt.Sprintf("a frame with line number %s: source analysis changed the raw values or the outcome of the scan", ln), Case: cs, Input: []byte(dh)})
 		}
 	}
 	if realRun {
